@@ -51,6 +51,9 @@ CHECKS = {
  'C20': dict(cat=MC, technique='TLA+ state machine of the VMAP file under add_geometry / add_node_set / add_element_set / add_variable with success and failure branches (spec/vmap/Vmap.tla); TLC explores every call history to a depth, checks RoundTrip / NoPartial / history independence; every reachable history is executed on a fresh VMAPExport file and the file projected through VMAPImport is compared with the specification state',
    text='Call histories over a mesh catalogue (2-D, 3-D, gapped/descending ids, interleaved rows, mixed element types, unsupported and out-of-range ids) form a finite state space; TLC checks the round-trip, no-partial-write and every-valid-mesh-is-accepted properties in every state / step, and each state is replayed into the real exporter and importer (values are distinguishable doubles per mesh row and column).',
    note='catalogue meshes; quick tier replays all histories up to depth 2 and a seeded 35 % of depth 3; five defects found this way were repaired in /repo', ref='5 C20'),
+ 'C19': dict(cat=MC, technique='TLA+ model of hot-spot region growing as coded vs connected components (spec/mesh/Hotspot.tla), TLC exhaustive over incidence structures and fields; TLA+ configuration lattice of block meshes x numberings x row orders with the boundary-node set (MeshOps.tla); every state evaluated through hotspot / gradient / gradient_3D / surface_3D / meshmapper',
+   text='Hot-spot detection is a graph algorithm: TLC proves region growing = connected components numbered by descending peak on every small incidence structure incl. ties and entries exactly on the threshold, and each is replayed with arbitrary ids and row orders. For the numeric operators the specification enumerates the configuration space (numberings with gaps / reversed / scattered, element numberings, row orders, hex / tet / mixed) for which the expectation (constant gradient at every node, boundary node set, linear values) is exact.',
+   note='gradient / surface / mapping expectations are exact only for linear fields on the block catalogue; the model contributes configurations and the boundary set, not floating-point reasoning', ref='5 C19'),
 }
 PENDING = 'check not built yet in this round (planned, see DESIGN.md section 5)'
 NA = {
